@@ -157,8 +157,28 @@ func (e *Env) invVarsAt(fr *Frame, at *ssa.BasicBlock) map[string]Value {
 // applyAliases binds contract names of renamed locals (see verifyItem) to their new names.
 func (e *Env) applyAliases(vars map[string]Value) {
 	for from, to := range e.aliases {
+		// "name-1" / "name+1": an integer local shifted by one (a range loop's hidden index is
+		// one less than the counter of the equivalent counting loop)
+		off := ""
+		if strings.HasSuffix(to, "-1") || strings.HasSuffix(to, "+1") {
+			off, to = to[len(to)-2:], to[:len(to)-2]
+		}
 		if v, ok := vars[to]; ok {
+			if off != "" {
+				sc, isSc := v.(*Sc)
+				if !isSc || sc.Sort != sInt {
+					continue
+				}
+				d := "1"
+				if off == "-1" {
+					d = "(- 1)"
+				}
+				v = &Sc{T: sx("+", sc.T, d), Sort: sInt, Typ: sc.Typ}
+			}
 			vars[from] = v
+		}
+		if off != "" {
+			continue
 		}
 		for k, v := range vars {
 			if strings.HasPrefix(k, to+"@") {
@@ -382,11 +402,22 @@ func (w *World) rebindSearch(it *Item, timeoutMs int, aliases map[string]string,
 	}
 	used := map[string]bool{}
 	for _, t := range aliases {
-		used[t] = true
+		used[strings.TrimSuffix(strings.TrimSuffix(t, "-1"), "+1")] = true
 	}
 	tries := 0
-	for _, cand := range localNames(fn) {
-		if used[cand] || itemMentions(it, cand) || tries >= 12 {
+	var cands []string
+	for _, c := range localNames(fn) {
+		if !used[c] && !itemMentions(it, c) {
+			cands = append(cands, c)
+		}
+	}
+	// plain bindings first, then bindings shifted by one
+	n0 := len(cands)
+	for i := 0; i < n0; i++ {
+		cands = append(cands, cands[i]+"-1", cands[i]+"+1")
+	}
+	for _, cand := range cands {
+		if tries >= 30 {
 			continue
 		}
 		tries++
@@ -395,6 +426,15 @@ func (w *World) rebindSearch(it *Item, timeoutMs int, aliases map[string]string,
 			al[k] = v
 		}
 		r := w.verifyItemOnce(it, timeoutMs, al)
+		if os.Getenv("GOVC_REBIND_DEBUG") != "" {
+			bad := ""
+			for _, o := range r.Obligations {
+				if !o.OK {
+					bad += " " + o.Name[strings.LastIndex(o.Name, ")")+1:]
+				}
+			}
+			fmt.Fprintf(os.Stderr, "rebind %s: %v -> error=%q failing=%s\n", it.Name, al, r.Error, bad)
+		}
 		if r.Error == "" {
 			ok := true
 			for _, o := range r.Obligations {
@@ -412,6 +452,9 @@ func (w *World) rebindSearch(it *Item, timeoutMs int, aliases map[string]string,
 				return r
 			}
 			continue
+		}
+		if m2 := unknownIdentRe.FindStringSubmatch(r.Error); m2 != nil && m2[1] == x {
+			continue // this candidate cannot stand for x (e.g. a shift of a non-integer)
 		}
 		if r2 := w.rebindSearch(it, timeoutMs, al, r.Error, depth+1); r2 != nil {
 			return r2
@@ -443,7 +486,7 @@ func localNames(fn *ssa.Function) []string {
 				case *ssa.Phi:
 					name = x.Comment
 				}
-				if name != "" && name != "_" && !seen[name] && !strings.ContainsAny(name, ". ") {
+				if name != "" && name != "_" && !seen[name] && !strings.ContainsAny(name, ". &|!<>=") {
 					seen[name] = true
 					out = append(out, name)
 				}
@@ -464,6 +507,11 @@ func sexprMentions(x *SExpr, name string) bool {
 	}
 	if x.Op == "ident" && x.Name == name {
 		return true
+	}
+	for _, b := range x.Bound {
+		if b.Name == name {
+			return false // a bound variable of this quantifier, not the program variable
+		}
 	}
 	for _, a := range x.Args {
 		if sexprMentions(a, name) {
